@@ -21,8 +21,11 @@ def canon(out: dict) -> str:
 
 
 def thr_jobs(ctx: Ctx, jobs: list[dict], tag: str) -> list[dict]:
-    """Run jobs in parallel thr_probe processes (each job is independent)."""
-    parts = chunks(jobs, NCPU)
+    """Run jobs in parallel thr_probe processes (each job is independent); jobs are dealt round-robin
+    so that long jobs spread over the processes, results come back in the original order."""
+    n = max(1, min(NCPU, len(jobs)))
+    order = [list(range(k, len(jobs), n)) for k in range(n)]
+    parts = [[jobs[i] for i in idx] for idx in order]
     procs = []
     for n, part in enumerate(parts):
         ip = ctx.wd / f"{tag}-job-{n}.json"
@@ -30,12 +33,13 @@ def thr_jobs(ctx: Ctx, jobs: list[dict], tag: str) -> list[dict]:
         ip.write_text(json.dumps({"jobs": part}))
         procs.append((subprocess.Popen([PYTHON, str(HARNESS / "thr_probe.py"), str(ip), str(op)], env=py_env(),
                                        stdout=subprocess.PIPE, stderr=subprocess.PIPE, text=True), op))
-    out = []
-    for p, op in procs:
+    out = [None] * len(jobs)
+    for (p, op), idx in zip(procs, order):
         _, err = p.communicate()
         if p.returncode != 0:
             raise MachineryError("thr_probe failed: " + err[-1500:])
-        out += json.loads(op.read_text())
+        for i, r in zip(idx, json.loads(op.read_text())):
+            out[i] = r
     return out
 
 
